@@ -13,9 +13,11 @@ RULES = {
     "R1": "vocabulary: every SymPy function head a SymbolicDim method can produce (sympy.<F>(…) constructors, "
     "floor from //, Mod from %) is a key of the parser's function table, and every table value prints under a key",
     "R2": "precedence: the parser's tiers, derived from the call chain of its _parse_* methods, follow the "
-    "printer's order: binary + - < * / // % < unary - < **",
+    "printer's order: binary + - < * / // % < unary - < **"
+    " ; the '-' branch of the unary handler returns the negation of a parse at the unary tier",
     "R3": "associativity: left-associative tiers fold in a while loop into the left operand; ** recurses on the right",
-    "R4": "every operator token the tokenizer can emit is consumed by some parser tier",
+    "R4": "every operator token the tokenizer can emit is consumed by some parser tier"
+    " ; the parser replaces its current token only by the tokenizer's next token (no token rewriting)",
     "R5": "operator agreement: each arithmetic dunder of SymbolicDim applies the operator its name denotes with "
     "operands in the right order; each parser operator token builds the matching SymPy form",
     "R6": "integer bindings are looked up by presence, never by truthiness: a value taken from a `Mapping[str, int]` "
